@@ -208,12 +208,15 @@ def canon(reg):
     return tuple(out)
 
 
-def bfs(tier, depth):
+def bfs(tier, depth, base=(), EV=None):
+    """BFS from the state reached by `base` (default: the empty registry)"""
     B = make_world()
-    EV = events(tier)
-    reg0, _ = build(B, ())
-    seen = {canon(reg0): ()}
-    frontier = collections.deque([()])
+    EV = EV or events(tier)
+    reg0, _ = build(B, base)
+    lg0 = logical(tuple(base))
+    seen = {(canon(reg0), tuple(sorted(lg0["avail"].items())), tuple(lg0["stack"])): tuple(base)}
+    frontier = collections.deque([tuple(base)])
+    depth += len(base)
     transitions = lookups = 0
     outcomes = collections.Counter()
     bad = []
@@ -235,7 +238,9 @@ def bfs(tier, depth):
                 outcomes[res] += 1
                 if res != exp and len(bad) < 200:
                     bad.append((h2, res, exp))
-            k = canon(reg)
+            # product state: implementation state x specification state (a divergence between the two must never be merged away)
+            lg = logical(h2)
+            k = (canon(reg), tuple(sorted(lg["avail"].items())), tuple(lg["stack"]))
             if k not in seen:
                 seen[k] = h2
                 frontier.append(h2)
@@ -300,9 +305,18 @@ def real_registry_probes():
     return out
 
 
+WITH_BASE = (("reg", "numpy"), ("reg", "numpy.x"), ("reg", "f1.hi"), ("import", "vf1"))
+WITH_EVENTS = [("enter", "numpy"), ("enter", "numpy.x"), ("enter", "f1.hi"), ("exit",), ("get", None, "np"), ("get", None, "t1"), ("get", "numpy", "t1"), ("get", None, "np+t1")]
+
+
 def run(ctx):
     depth = 6 if ctx.tier == "quick" else 7
     r = bfs(ctx.tier, depth)
+    # second search from a non-initial state: nested with-blocks (re-entering an active backend included) over a populated registry
+    r2 = bfs(ctx.tier, 6 if ctx.tier == "quick" else 8, base=WITH_BASE, EV=WITH_EVENTS)
+    for k in ("states", "transitions", "lookups"):
+        r[k] += r2[k]
+    r["outcomes"].update(r2["outcomes"]); r["bad"] += r2["bad"]; r["samples"] += r2["samples"]; r["maxdepth"] = max(r["maxdepth"], r2["maxdepth"])
     B = make_world()
     for h2, res, exp in r["bad"]:
         small = shrink(B, h2, None)
